@@ -44,6 +44,9 @@ def main(argv=None):
     except ImportError:
         print(f"ANALYSIS-ERROR property={prop}: no check module")
         return 2
+    except Exception as ex:  # a broken check module is an analysis error, never a verdict
+        print(f"ANALYSIS-ERROR property={prop}: check module does not load: {type(ex).__name__}: {ex}")
+        return 2
     rep = None
     try:
         repo = Repo()
